@@ -24,15 +24,15 @@ CHECKS = {
    text="AnkoSem defines lexical scoping (nearest binding, assignment vs var, block/loop/function/module scopes, closures by reference, fresh scope per invocation) independently of the interpreter; TLC computes the demanded reads and final bindings for every program of the bounded family and for seeded random programs, and the real interpreter must reproduce them exactly, on every exit path.",
    note=CORE_NOTE),
  "C07": dict(level="model_checking", design="5 (C07), 3.4",
-   technique="TLC evaluation of spec/AnkoSem.tla (left-to-right, exactly-once, short-circuit) over all operand-bearing forms x failing-operand positions + replay on the real VM comparing the ordered probe log",
+   technique="TLC evaluation of spec/AnkoSem.tla (left-to-right, exactly-once, short-circuit) over all operand-bearing forms (calls on every path, literals, operators, index reads, index-path assignment targets, arity rejections) x failing-operand positions and random programs over the whole language of the specification + replay on the real VM comparing the ordered probe log; go calls: the pipelines of AnkoChan.tla with probe operands on the direct, 5-parameter and variadic call paths",
    text="For every call path, literal, operator and short-circuit form with probe operands, and for every position of a failing operand, the ordered probe log demanded by the reference semantics is compared with the log written by the real interpreter.",
    note=CORE_NOTE),
  "C08": dict(level="model_checking", design="5 (C08), 3.4",
-   technique="TLC evaluation of spec/AnkoSem.tla over all nestings (depth 2, thorough 3) of 13 control constructs x 8 control leaves, truthiness/switch/for-in families and seeded random programs + replay on the real parser/VM",
+   technique="TLC evaluation of spec/AnkoSem.tla over all nestings (depth 2, thorough 3) of 14 control constructs (incl. channel loops) x 8 control leaves, truthiness/switch/for-in families, jumps through try/finally (both readings of the open point accepted) and seeded random programs (two generators) + replay on the real parser/VM",
    text="The reference semantics fixes which branch runs, how often loop bodies run, what break/continue/return bind to and what a function yields; every program of the bounded grammar is replayed and result, probe log and bindings compared.",
    note=CORE_NOTE),
  "C09": dict(level="model_checking", design="5 (C09), 3.4",
-   technique="TLC evaluation of spec/AnkoSem.tla (throw/try/catch/finally, per-invocation LIFO defers) over terminator x defer-position families and templates + replay on the real VM",
+   technique="TLC evaluation of spec/AnkoSem.tla (throw/try/catch/finally, per-invocation LIFO defers) over terminator x defer-position families, templates (panicking Go functions, Go callbacks without results, channel loops) and seeded random programs + replay on the real VM",
    text="Defers (count, LIFO order, argument timing, result preservation, error precedence) and error propagation to the nearest try are defined by the reference semantics and compared on every program of the families on the real interpreter.",
    note=CORE_NOTE),
  "C14": dict(level="model_checking", design="5 (C14)",
@@ -80,9 +80,9 @@ CHECKS = {
    text="The specification keeps the heap of backing arrays and slice headers explicitly, so aliasing, writes through shared storage, appends within and beyond capacity and 3-index capacity limits are part of the state; each recorded statement's result and the whole projection after it (contents, len, cap, storage sharing measured through data pointers, map contents, fields) must be a step the specification allows, with errors leaving everything unchanged. The same Step function drives a bounded machine (per family: slices, maps, strings, typed containers and struct fields incl. a map-typed field and values read into variables) that TLC explores exhaustively up to a depth bound with the clauses of the statement as properties (WindowOK, TypedHolds, ErrUnchanged, ReadsPure, StoreExact, SliceShares, AliasIsReference, GrowthLocal, StringsAreValues, MapAliasing, BoundValuesStay); one history per transition is replayed on the interpreter and judged by the trace specification.",
    note="Trusted: TLC; the harness' projection through reflection (data pointers for sharing). Bounds: depth 4-5 (quick) / 6 (thorough) per family over alphabets of 40-70 statements; seeded random histories (400x30 quick, 6000x40 thorough) over 11 variables, ~35 operation kinds; points the statement leaves open end the judged part of a history; capacity growth is taken from the log."),
  "C11": dict(level="model_checking", design="5 (C11), 3.8",
-   technique="TLC enumerates the conversion table and call-shape table of AnkoCall.tla over signatures x argument tuples x call shapes (tables checked total); replay against host functions built with reflect.MakeFunc comparing the arguments actually received; the Results and MethodReachable tables enumerated and replayed likewise; scenario checks for round trips, members and callbacks",
+   technique="TLC enumerates the conversion table and call-shape table of AnkoCall.tla over signatures x argument tuples x call shapes (tables checked total); replay against host functions built with reflect.MakeFunc comparing the arguments actually received; the Results, MethodReachable and callback (CallbackSees / CallbackReturns) tables enumerated and replayed likewise; scenario checks for round trips, members, addresses of fields and callbacks",
    text="Which argument feeds which parameter, whether the call is delivered or rejected, and how each value is converted (identity, Go conversion, zero value, element-wise, callback adapter, error) are decided by the TLA+ tables for every combination of the bounded pools and compared with what a reflect-built host function of that very signature receives; identity round trips, field access through values and pointers, value/pointer-receiver methods, variadic and spread delivery, multiple results and callback conversion/error surfacing are checked on concrete host values.",
-   note="Trusted: reflect.Convert as Go's own conversion; TLC. Bounds: 15 parameter types, 15 argument kinds, one- and two-parameter and variadic signatures, ~8.5k cases; results: 0-3 results over 12 kinds (typed nils, errors, interfaces); methods: 8 receiver shapes x value/pointer receiver x 0-2 arguments; 50 scenarios."),
+   note="Trusted: reflect.Convert as Go's own conversion; TLC. Bounds: 15 parameter types, 15 argument kinds, one- and two-parameter and variadic signatures, ~8.5k cases; results: 0-3 results over 12 kinds (typed nils, errors, interfaces); methods: 8 receiver shapes x value/pointer receiver x 0-2 arguments; callbacks: Go func types with 0-2 fixed + optional variadic parameters (0-3 values) x script functions with 0-3 named + optional variadic parameters, 0-2 declared results x 0-3 returned values (203 cases); 54 scenarios."),
  "C19": dict(level="model_checking", design="5 (C19), 3.9",
    technique="TLC computes range progressions with the Int64 limb arithmetic and the toInt/toFloat dispatch (AnkoBuiltins.tla) for enumerated argument tuples; replay in a memory-limited watchdogged worker; native-Go oracles for the remaining builtins; TLC validation of the reflected package tables against EntryOK",
    text="range is specified as the int64 progression strictly before stop and computed bit-exactly in TLA+ for all small triples and for extreme triples at the int64 edges (where the implementation must stop instead of wrapping); conversions are dispatched in TLA+ to exact values or named Go primitives. The remaining builtins are compared with the same computation done natively in Go over a value universe, including misuse; all 595 package-table entries are reflected (runtime symbol / type identity) and validated against the rule that an entry is the Go function or type it is listed under.",
